@@ -276,8 +276,10 @@ func StartF(c *core.Ctx) (*core.FDriver, func()) {
 	fd.HoldFor = 0
 	fd.S.Install()
 	return fd, func() {
-		fd.S.Off()
-		synctest.Wait()
+		fd.Finish(c)
+		if !fd.Deadlocked() {
+			synctest.Wait()
+		}
 		fd.S.Uninstall()
 		c.SetInterleaving(fd.S.Hash(), fd.S.Steps())
 		c.FaultN("schedule:goroutine-stalled", fd.Holds)
